@@ -869,13 +869,11 @@ class BlockChain(object):
         if offset % pinned_block.alignment != 0:
             raise RuntimeError('Bad alignment')
 
+        new_offsets = []
         for block in reversed(self.blocks[:self.pinned_block_idx]):
             new_offset = offset - block.size
             new_offset = new_offset - new_offset % block.alignment
-            fix_loc_offset(self.loc_db,
-                           block.loc_key,
-                           new_offset,
-                           modified_loc_keys)
+            new_offsets.append((block.loc_key, new_offset))
             offset = new_offset
 
         # Propagate offset to blocks after pinned block
@@ -884,12 +882,21 @@ class BlockChain(object):
         last_block = pinned_block
         for block in self.blocks[self.pinned_block_idx + 1:]:
             offset += (- offset) % last_block.alignment
-            fix_loc_offset(self.loc_db,
-                           block.loc_key,
-                           offset,
-                           modified_loc_keys)
+            new_offsets.append((block.loc_key, offset))
             offset += block.size
             last_block = block
+
+        # A moved block may land on the previous offset of a block of this
+        # chain which has not been moved yet: release every changed offset
+        # before assigning the new ones
+        changed = [(loc_key, new_offset) for loc_key, new_offset in new_offsets
+                   if self.loc_db.get_location_offset(loc_key) != new_offset]
+        for loc_key, _ in changed:
+            if self.loc_db.get_location_offset(loc_key) is not None:
+                self.loc_db.unset_location_offset(loc_key)
+        for loc_key, new_offset in changed:
+            self.loc_db.set_location_offset(loc_key, new_offset)
+            modified_loc_keys.add(loc_key)
         return modified_loc_keys
 
 
